@@ -83,18 +83,7 @@ Theorem C10_unresolved : forall refs ps,
   separated refs ps -> colon_free refs ps ->
   (unresolved (resolve_args refs (flatten ps)) = true <->
    exists t, In (Tok t) ps /\ forall r, In r refs -> denotes r t = false).
-Proof.
-  intros refs ps S C. rewrite (unresolved_exact refs ps S C). unfold spec_unresolved.
-  rewrite existsb_exists. split.
-  - intros [[s|t] [I U]]; [discriminate|]. exists t. split; [exact I|]. cbn in U.
-    apply negb_true_iff in U. unfold declared in U. intros r Hr.
-    destruct (denotes r t) eqn:D; [|reflexivity].
-    assert (X : existsb (fun r => denotes r t) refs = true) by (apply existsb_exists; exists r; auto).
-    congruence.
-  - intros [t [I U]]. exists (Tok t). split; [exact I|]. cbn. apply negb_true_iff.
-    unfold declared. destruct (existsb (fun r => denotes r t) refs) eqn:X; [|reflexivity].
-    apply existsb_exists in X as [r [Hr D]]. rewrite (U r Hr) in D. discriminate.
-Qed.
+Proof. exact unresolved_iff. Qed.
 Print Assumptions C10_unresolved.
 
 (* Both for a raw argument string read with the code's own recogniser: its tokens always hold
